@@ -1238,3 +1238,15 @@ PROPS["C06"]["partial_gap"] = PROPS["C06"]["partial_gap"].replace(
     ' The single-station half is complete: C06_lost_token_recovers_alone covers every Rep state; its only side condition is that a station that has '
     'recorded no bus activity at all is in state Offline (true of every reachable state: invariant ti_some of Proofs/FdlOracleSound3.v), and "silent" '
     'means an empty receive buffer in every poll (stale bytes in the buffer are garbage / telegrams, covered by the one-step theorems only).')
+
+# ---- agent fa, follow-up: oracle soundness of the C11 liveness rule (coq/Proofs/C11Liveness.v) ----
+PROPS["C11"]["level_note"] += (' C11_supervision_liveness_sound (Proofs/C11Liveness.v): the liveness rule supervision_never_ends is never '
+    'reported on a model transcript either (all input histories, app_sends_data); with it C11_oracle_sound: NO rule of C11 is reported on a '
+    'transcript of the model. The proof keeps an exact account of last_bus_activity / pending_bytes against the monitor (l_ref, l_txend, l_spur) '
+    'while the pass is supervised: established by every poll that transmits and ends in CheckTokenPass, kept by every poll that stays there; the '
+    "monitor's expiry then implies the model's slot_expired and C11_check_pass_poll forces the retry / removal in that poll.")
+PROPS["C11"]["partial_gap"] = PROPS["C11"]["partial_gap"].replace(
+    ' Oracle soundness: the liveness rule supervision_never_ends is NOT yet covered.',
+    ' Oracle soundness: complete for C11 (C11_oracle_sound), the liveness rule supervision_never_ends included.')
+PROPS["C06"]["level_note"] += (' C06_lost_token_recovers_alone uses C05 (no poll panics from a Rep state), FdlOracleSound2.poll_bk (what a poll does to '
+    'last_bus_activity) and FdlOracleSound9 (slot time covers the synchronisation pause).')
